@@ -252,6 +252,16 @@ def enc_record_reused(rid, m, d, legacy):
         return rec
     rec["raw"] = list(raw)
     rec["err"] = ""
+    # a receiver that post-processes a decoded burst in place, then meets the same octets again:
+    # what it decodes the second time is still what the octets say
+    parse_reused(d["cls"], bytes(raw))
+    dm = _DECODERS.get(d["cls"])
+    if dm is not None and dm.burst is not None:
+        try:
+            for i in range(0, len(dm.burst), 3):
+                dm.burst[i] = 1 if d["cls"] == "tx" else -5
+        except Exception:
+            pass
     rec["dec"] = parse_reused(d["cls"], bytes(raw))
     return rec
 
